@@ -27,12 +27,16 @@ fn main() {
             match args[2].as_str() {
                 "hist" => gen::hist(&mut rng, size, false, &mut out),
                 "family" => gen::hist(&mut rng, size, true, &mut out),
+                "kin" => gen::hist_with(&mut rng, size, false, true, &mut out),
+                "kinfamily" => gen::hist_with(&mut rng, size, true, true, &mut out),
                 "scope" => gen::scope(48, 2, size, 5, &mut out),
                 "scope1" => gen::scope(48, 1, size, 6, &mut out),
                 "parse" => gen::parse_stream(10, size, 7, &mut out),
                 "cells" => gen2::cells(3 + size, &mut out),
                 "prio" => gen2::prio(size, &mut out),
                 "dup" => gen2::dup(size, &mut out),
+                "dupsib" => gen2::dupsib(size, &mut out),
+                "grouprank" => gen2::grouprank(size, &mut out),
                 "orders" => gen2::orders(size, &mut rng, &mut out),
                 "pairs" => gen2::pairs(size, &mut out),
                 "single" => gen2::single(size, &mut rng, &mut out),
@@ -48,11 +52,12 @@ fn main() {
                 "sibs" => gen3::sibs(size, &mut out),
                 "oci" => gen3::oci(size, &mut out),
                 "threads" => gen3::threads(size, &mut rng, &mut out),
+                "long" => gen3::long(size, &mut out),
                 _ => usage(),
             }
             gen::write(&out, &args[7]);
         }
-        Some("suites") => println!("hist family scope scope1 parse cells prio dup orders pairs single clonescope clonerank junk parsefocus ascii groups splitopt fromstr regs sibs oci threads"),
+        Some("suites") => println!("hist family kin kinfamily scope scope1 parse cells prio dup dupsib grouprank orders pairs single clonescope clonerank junk parsefocus ascii groups splitopt fromstr regs sibs oci threads long"),
         Some("run") if args.len() == 6 => {
             let input = std::io::BufReader::new(std::fs::File::open(&args[2]).expect("ops"));
             let mut full = BufWriter::new(std::fs::File::create(&args[3]).expect("full"));
